@@ -27,6 +27,10 @@ func checkC02(c *Ctx, r *Report) {
 	includePrereq(c, r, "C02.c", checkC03)
 	includePrereq(c, r, "C02.c", checkC05)
 	includePrereq(c, r, "C02.c", checkC09)
+	// a sentence's token codes must select the columns of their own terminals (C11.c, translate), and the grammar whose
+	// sentences are meant is the one written in the file (C10.c rules and order, C10.d tokenisation)
+	includeSome(r, "C02.c", func(sub *Report) { c11c(c, sub, st) }, "buildTranslate")
+	includeClauses(c, r, "C02.c", checkC10, "C10.c", "C10.d")
 }
 
 func c02a(c *Ctx, r *Report) {
